@@ -261,8 +261,12 @@ TNoStart ==
 
 NotActivated == {k \in DOMAIN done : Len(k) > 4 /\ SubSeq(k, 1, 4) = "att:" /\ done[k].wf
                      /\ LET p == SubSeq(k, 5, Len(k)) IN ~(Known(p) /\ pst[p] = "active")}
+\* the driver's watchdog: a runtime caller (or a plugin operation) never returned
+HungLabel == IF \E i \in DOMAIN E.hung : Len(E.hung[i]) >= 15 /\ SubSeq(E.hung[i], Len(E.hung[i]) - 14, Len(E.hung[i])) = "BlockPluginSync"
+             THEN "C08-block-never-granted" ELSE "C07-request-never-returned"
 TEnd ==
-  IF NotActivated # {} THEN Reject("C17-wellformed-not-activated", <<NotActivated>>)
+  IF Len(E.hung) > 0 THEN Reject(HungLabel, <<E.hung>>)
+  ELSE IF NotActivated # {} THEN Reject("C17-wellformed-not-activated", <<NotActivated>>)
   ELSE IF Len(E.stuck) > 0 THEN Reject("C08-registration-stuck", <<E.stuck>>)
   ELSE IF readers # {} \/ rlock # "" \/ swriter # "" THEN Reject("C08-not-quiescent", <<readers, rlock, swriter>>)
   ELSE Skip
